@@ -26,6 +26,8 @@ TFileOf    == LET R == Rec IN
                  LET S == { i \in 1..Len(R) : R[i].ev = "start" /\ R[i].uri = k[1] /\ R[i].host = k[2] }
                  IN  IF S = {} THEN "-" ELSE R[CHOOSE i \in S : TRUE].file]
 
+TStrip     == [r \in TRoutes |-> r]     \* (unused: Dev = {})
+
 VARIABLES l, dead, win
 tvars == <<entries, total, clock, last, op, files, fhist, pc, rq, resp, l, dead, win>>
 
